@@ -18,43 +18,82 @@
 (* when pandora has logged "Awaiting started tasks" ~                      *)
 (* SignalWhileAwaitingTasks; failed_returned_before (written by the        *)
 (* failing provider itself right before it failed) ~ stopCount.            *)
+(* Scenarios (Start.scen): "second" ~ SecondSignal; "timeout" (the sink    *)
+(* takes nothing any more) ~ FlushBegin without FlushEnd, InterruptTimeout;*)
+(* "startup" (signal sent without waiting for a report) ~ EarlySignal or   *)
+(* Signal1 at Total = 0; "hup" / "quit" ~ UntrappedSignal; "backpr" ~      *)
+(* ReportBlocks / two-step writes; "full" (/dev/full) ~ Aggregator!        *)
+(* WriteFails: NoSilentLoss at process level = the process FAILS;          *)
+(* "nodir": a destination that cannot be opened - the process fails;       *)
+(* "grpc", "mixed": the plain rule with another gun / two aggregator kinds.*)
+(* Which exits may lose data - exactly Shutdown!Exempt: a logged timeout,  *)
+(* "Another signal received" after TWO signals, death by SIGHUP/SIGQUIT,   *)
+(* death by SIGINT/SIGTERM's default action when the signal was sent       *)
+(* before any report had returned (before signal.Notify).  Every exit,     *)
+(* forced or not, satisfies Shutdown!ForcedBounded.                        *)
 (***************************************************************************)
 EXTENDS Phout, Json, IOUtils
 
-VARIABLES l, sig, inst, fail, before, bad
-vars == <<l, sig, inst, fail, before, bad>>
+VARIABLES l, sig, inst, fail, before, scen, bad
+vars == <<l, sig, inst, fail, before, scen, bad>>
 
 Trace == ndJsonDeserialize(IOEnv.VERIF_TRACE)
 Ev == Trace[l]
 Flag(cond, name) == IF cond THEN {} ELSE {name}
 
-Init == l = 1 /\ sig = "" /\ inst = 0 /\ fail = FALSE /\ before = -1 /\ bad = {}
+Init == l = 1 /\ sig = "" /\ inst = 0 /\ fail = FALSE /\ before = -1 /\ scen = "" /\ bad = {}
 
 Start == /\ Ev.ev = "Start"
-         /\ sig' = Ev.sig /\ inst' = Ev.inst_total /\ fail' = Ev.fail /\ before' = -1 /\ UNCHANGED bad
+         /\ sig' = Ev.sig /\ inst' = Ev.inst_total /\ fail' = Ev.fail /\ before' = -1 /\ scen' = Ev.scen /\ UNCHANGED bad
 Signal == /\ Ev.ev = "Signal"
           /\ before' = Ev.returned_before
           /\ bad' = bad \cup Flag(sig = Ev.sig /\ before = -1, "DriverSignalTwice")
-          /\ UNCHANGED <<sig, inst, fail>>
+          /\ UNCHANGED <<sig, inst, fail, scen>>
+
+\* Shutdown!Exempt, on what is observable
+TimeoutExit   == Ev.timeout_exit                                      \* cause "timeout": pandora's own log
+SecondExit    == Ev.another_signal /\ Ev.signals >= 2                 \* cause "second": the driver did send two
+UntrappedExit == sig \in {"HUP", "QUIT"} /\ ~Ev.agg_returned          \* cause "untrapped": default action
+EarlyExit     == Ev.killed # "" /\ sig \in {"INT", "TERM"} /\ before = 0 /\ scen = "startup"   \* cause "early"
+ForcedExit    == TimeoutExit \/ SecondExit \/ UntrappedExit \/ EarlyExit
+
 Exit == /\ Ev.ev = "Exit"
         /\ bad' = bad \cup
-             \* by design pandora does not wait when its timeout expires or after a SECOND signal (Shutdown!Forced);
-             \* "Another signal received" after ONE signal is not that (Shutdown!SignalWhileAwaitingTasks)
-             (IF Ev.timeout_exit \/ (Ev.another_signal /\ Ev.signals >= 2) THEN {}
+             \* Shutdown!ForcedBounded: whatever ended the process, nothing is invented, whole lines are well-formed
+             Flag(Ev.lines + Ev.dropped <= Ev.entered, "MoreLinesPlusDropsThanReports")
+             \cup Flag(Ev.malformed = 0, "MalformedLine")
+             \* Shutdown!EventuallyExits: a stopped pandora whose sink blocks gives up by itself
+             \cup Flag(~Ev.hung, "DidNotExitAfterInterruptTimeout")
+             \* the interrupt timeout is 30 s after SIGINT, 3 s after SIGTERM, counted from the signal (measured by the
+             \* driver from before it sent the signal: never shorter than pandora's own measure)
+             \cup Flag((Ev.timeout_exit /\ ~fail /\ sig \in {"INT", "TERM"}) => Ev.elapsed_ms >= (IF sig = "INT" THEN 30000 ELSE 3000),
+                       "TimeoutExitBeforeTheTimeout")
+             \* SIGINT / SIGTERM are trapped once reports are being made: their default action never ends the process then
+             \cup Flag((Ev.killed # "" /\ sig \in {"INT", "TERM"}) => (before = 0 /\ scen = "startup"), "KilledByATrappedSignal")
+             \cup
+             (IF ForcedExit THEN {}
+              ELSE IF scen = "full"
+              \* every write fails (ENOSPC): Aggregator!NoSilentLoss - the aggregator's Run reports it, the run fails
+              THEN Flag(Ev.agg_returned, "ExitedBeforeAggregatorReturned")
+                   \cup Flag(Ev.entered - Ev.dropped > 0 => Ev.agg_err # "", "SinkFailureNotReported")
+                   \cup Flag(Ev.agg_err # "" => Ev.status # 0, "SinkFailureExitZero")
+              ELSE IF scen = "nodir"
+              \* the destination cannot be opened (phout: when the config is decoded; file sink: when the aggregator's Run
+              \* starts): pandora does not pretend that it wrote a result
+              THEN Flag(Ev.status # 0, "UnwritableDestinationExitZero")
               ELSE IF fail
               \* one pool failed by itself ~ Shutdown!FailDelivered, main in "errwait"; with or without one signal
               \* while the started tasks are awaited: everything whose Report had returned before the failure is
               \* in the flushed, closed output of the other pool
               THEN Flag(Ev.agg_returned, "ExitedBeforeAggregatorReturned")
                    \cup Flag(Ev.last_complete, "LastLineTruncated")
-                   \cup Flag(Ev.malformed = 0, "MalformedLine")
                    \cup Flag(Ev.agg_err = "", "UnexpectedAggregatorError")
                    \cup Flag(Ev.failed_returned_before >= 0
                              /\ CompleteBetween(Ev.lines, Ev.dropped, Ev.failed_returned_before, Ev.entered),
                              "ReportsMadeBeforeTheFailureMissing")
-              ELSE Flag(Ev.agg_returned, "ExitedBeforeAggregatorReturned")
+              \* (a pool that was stopped before it started its aggregator has reported nothing: Ev.entered = 0)
+              ELSE Flag(Ev.agg_returned \/ Ev.entered = 0, "ExitedBeforeAggregatorReturned")
                    \cup Flag(Ev.last_complete, "LastLineTruncated")
-                   \cup Flag(Ev.malformed = 0, "MalformedLine")
                    \cup Flag(Ev.agg_err = "", "UnexpectedAggregatorError")
                    \cup (IF sig = "none" /\ Ev.status = 0
                          \* every pool ended by itself (Shutdown!NormalEndExact): nothing at all is lost
@@ -68,7 +107,7 @@ Exit == /\ Ev.ev = "Exit"
                                    "MoreThanTheShotsInFlightMissing")
                          ELSE Flag(before >= 0 /\ CompleteBetween(Ev.lines, Ev.dropped, before, Ev.entered),
                                    "ReportsMadeBeforeTheSignalMissing")))
-        /\ UNCHANGED <<sig, inst, fail, before>>
+        /\ UNCHANGED <<sig, inst, fail, before, scen>>
 
 Next == /\ l <= Len(Trace)
         /\ l' = l + 1
